@@ -1,23 +1,27 @@
 (* C01 — property theorems.  d ranges over ALL datatype trees (any depth and width), v/j over all modelled Python
-   values, prev over None and every value of the type.  Full statement of the property and what is proved:
+   values, prev over None and every value of the type.  Clauses of the property and what is proved (for the tree
+   with the eight "fix:" commits of known_findings.json applied):
 
-   (sound)     validation never returns a value outside the declared value set           -- proved unconditionally
-                (limits, lengths, membership, element-wise; struct members declared and well-typed);
-                presence of mandatory struct members is refuted (C01_refuted_struct_none_mandatory)
-   (total)     the only other outcome is RangeError / WrongTypeError                      -- proved under the guards
-                validate_guard / import_guard / wire_guard, which are exactly the complements of the finding classes
-                scaled-nonfinite-leaks, struct-from-nonmapping, import-noniterable-into-sequence (Refuted.v)
-   (canonical) the result denotes the offered value                                        -- refuted for the finding
-                classes of Refuted.v; outside them it is checked by the correspondence + specification-side oracle only
-   (idempotent) validate(validate(v)) = validate(v)                                       -- oracle only (partial)          *)
+   (sound)      validation never returns a value outside the declared value set (limits, lengths, membership,
+                element-wise, mandatory struct members present)                           -- C01_validate_sound, C01_wire_sound
+   (total)      import_value answers with a value, RangeError or WrongTypeError only     -- C01_import_total (unconditional)
+                validate likewise                                                         -- C01_validate_total, under
+                validate_guard: a struct's previous value is None/empty/a dict (always so for a parameter of that
+                type), and the representability guard scaled_call_guard (see Lemmas.v; always true for binary64,
+                not proved)
+   (canonical)  which JSON kinds denote a value of which type, lengths and leaf values preserved
+                                                                                          -- C01_import_kinds, C01_array_length
+   (idempotent) validate(validate(v)) = validate(v)                                      -- oracle + correspondence only (partial) *)
 From Coq Require Import ZArith NArith Bool List.
 Import ListNotations.
-Require Import FV.Gen.C01 FV.Base.F64 FV.Base.PyVal FV.C01.Model FV.C01.Lemmas FV.C01.Refuted.
+Require Import FV.Gen.C01 FV.Base.F64 FV.Base.PyVal FV.C01.Model FV.C01.Lemmas.
 
 Theorem C01_source_facts :
   unlimited_is_2_64 = true /\ clamp_is_median_of_sorted = true /\ float_validate_shape = true /\
   int_validate_shape = true /\ scaled_validate_shape = true /\ generic_import_is_call = true /\
-  containers_wrap_element_errors = true.
+  containers_wrap_element_errors = true /\ sequences_check_before_import = true /\
+  sequences_reject_str_bytes_dict = true /\ struct_requires_dict = true /\ blob_import_strict = true /\
+  struct_checks_missing_after_merge = true.
 Proof. repeat split; reflexivity. Qed.
 
 Theorem C01_validate_sound : forall d, wf d -> forall v prev r,
@@ -28,24 +32,41 @@ Theorem C01_wire_sound : forall E d, wf d -> forall j prev r,
   prev_ok d prev -> wire E d j prev = Ok r -> in_setb d r = true.
 Proof. exact wire_sound. Qed.
 
+Theorem C01_import_total : forall E d j, okbad (dt_import E d j) = true.
+Proof. exact import_total. Qed.
+
 Theorem C01_validate_total : forall d v prev,
   validate_guard d v prev = true -> okbad (dt_validate d v prev) = true.
 Proof. exact validate_total. Qed.
 
-Theorem C01_import_total : forall E d j, import_guard d j = true -> okbad (dt_import E d j) = true.
-Proof. exact import_total. Qed.
-
 Theorem C01_wire_total : forall E d j prev, wire_guard E d j prev = true -> okbad (wire E d j prev) = true.
 Proof. exact wire_total. Qed.
 
-(* the median-of-three clamp used for the resolution tolerance stays between its bounds, for all binary64 numbers *)
+(* no silent reinterpretation at the level of JSON kinds: whatever import_value accepts has the kind the type
+   prescribes, at every depth (a string is never taken as a number or as a list of characters, a number never as a
+   sequence, only a mapping as a struct) *)
+Theorem C01_import_kinds : forall E d j v, dt_import E d j = Ok v -> kind_ok d j = true.
+Proof. exact import_kinds. Qed.
+
+(* the offered array is neither truncated nor extended, whatever value is currently held *)
+Theorem C01_array_length : forall e a b v prev items ys,
+  py_iter v = Some items -> dt_validate (TArray e a b) v prev = Ok (PTuple ys) -> length ys = length items.
+Proof. exact array_length_preserved. Qed.
+
+(* the median-of-three clamp used for the resolution tolerance stays between its bounds, for all binary64 numbers,
+   and returns a value that is inside the limits unchanged *)
 Theorem C01_clamp_between : forall lo v hi,
   F64Lemmas.notnan lo -> F64Lemmas.notnan v -> F64Lemmas.notnan hi -> fle lo hi = true ->
   fle lo (fclamp lo v hi) = true /\ fle (fclamp lo v hi) hi = true /\
   (fle lo v = true -> fle v hi = true -> fclamp lo v hi = v).
 Proof. exact F64Lemmas.fclamp_between. Qed.
 
-(* non-vacuity: a nested well-formed type, a value that validates into the set, guards that hold *)
+(* non-vacuity and regression: a nested well-formed type, a value that validates into the set, guards that hold,
+   and the repaired behaviour on the inputs of the former findings *)
+Definition E0 : pyenv := {| int_of := []; b64_of := [(false, [89%N; 87%N; 74%N; 113%N], [97%N; 98%N; 99%N])] |}.
+Definition i05 := TInt 0 5.
+Definition s01 := TScaled (fmk 1 (-1)) fzero (of_Z 10).      (* scale 0.5, 0 .. 10 *)
+Definition sa := [97%N].
 Definition demo_d : dtype :=
   TStruct [([97%N], TArray (TFloat fzero (of_Z 10) fzero (fmk 1 (-20))) 0 3); ([98%N], s01)] [[98%N]] false.
 Example C01_demo_wf : wf demo_d.
@@ -56,11 +77,31 @@ Example C01_demo_run :
   validate_guard demo_d (PDict [([97%N], PList [PInt 3])]) PNone = true /\
   wire_guard E0 demo_d (PDict [([98%N], PInt 4)]) PNone = true.
 Proof. repeat split; vm_compute; reflexivity. Qed.
+Example C01_repaired_behaviour :
+  res_same (wire E0 (TTuple [i05]) (PInt 5) PNone) (Err EWrongType) = true /\
+  res_same (wire E0 (TTuple [i05]) (PList [PInt 1; PInt 2]) PNone) (Err EWrongType) = true /\
+  res_same (wire E0 (TStruct [(sa, i05)] [] false) (PStr [97%N; 98%N]) PNone) (Err EWrongType) = true /\
+  res_same (dt_validate s01 (PFloat (finf false)) PNone) (Err ERange) = true /\
+  res_same (dt_validate s01 (PFloat fnan) PNone) (Err ERange) = true /\
+  res_same (dt_import E0 s01 (PStr [53%N])) (Err EWrongType) = true /\
+  res_same (dt_import E0 s01 (PFloat (fmk 5 (-1)))) (Err EWrongType) = true /\
+  res_same (dt_import E0 s01 (PFloat (of_Z 2))) (dt_import E0 s01 (PInt 2)) = true /\
+  res_same (wire E0 (TBlob 0 10) (PStr [33%N; 33%N; 33%N; 33%N]) PNone) (Err EWrongType) = true /\
+  res_same (wire E0 (TBlob 0 10) (PStr [89%N; 87%N; 74%N; 113%N]) PNone) (Ok (PBytes [97%N; 98%N; 99%N])) = true /\
+  res_same (dt_validate (TArray i05 0 5) (PList [PInt 1; PInt 2; PInt 3]) (PTuple [PInt 1; PInt 2]))
+           (Ok (PTuple [PInt 1; PInt 2; PInt 3])) = true /\
+  res_same (wire E0 (TArray (TString 0 10 false) 0 5) (PStr [97%N; 98%N]) PNone) (Err EWrongType) = true /\
+  res_same (dt_validate (TStruct [(sa, i05)] [] false) (PDict [(sa, PNone)]) PNone) (Err EWrongType) = true /\
+  res_same (dt_validate (TStruct [(sa, i05)] [] false) (PDict [(sa, PNone)]) (PDict [(sa, PInt 3)]))
+           (Ok (PDict [(sa, PInt 3)])) = true.
+Proof. repeat split; vm_compute; reflexivity. Qed.
 
 Print Assumptions C01_source_facts.
 Print Assumptions C01_validate_sound.
 Print Assumptions C01_wire_sound.
-Print Assumptions C01_validate_total.
 Print Assumptions C01_import_total.
+Print Assumptions C01_validate_total.
 Print Assumptions C01_wire_total.
+Print Assumptions C01_import_kinds.
+Print Assumptions C01_array_length.
 Print Assumptions C01_clamp_between.
